@@ -4,8 +4,8 @@
    for A n x n, x0 of length n, v with n rows of at least ts-1 entries, ts >= 1 (the local array x = np.empty((n, ts))
    is completely overwritten). *)
 From Coq Require Import ZArith List Bool Arith Lia.
-From QE Require Import Base.Num Base.Pivot Gen.Kernels Gen.Kernels2 Gen.Kernels3 Base.PivotTie
-     C04.TieGen C04.TieGenInit C02.TieGen Base.LinAlg C12.Model.
+From QE Require Import Base.Num Base.Pivot Gen.Kernels Gen.Kernels2 Gen.Kernels3 Base.GenLemmas
+     Base.RowOps Base.LinAlg C12.Model.
 Import ListNotations.
 
 Section Tie.
